@@ -201,6 +201,11 @@ structure Exc where
   emptyBody : Bool
   hasBody : Bool
   headers : List (Text × Text)  -- self.headers.items()
+  /-- third case of a value: an object with `__html__` (a `str` subclass such as markupsafe.Markup): the text fields
+  above hold `str(value)`, these hold what `value.__html__()` returns.  `none` = a plain `str` (or `None`). -/
+  detailHtml : Option Text := none
+  commentHtml : Option Text := none
+  explanationHtml : Option Text := none
 deriving Repr
 
 /-- class-level data (generated from the source by extract/c19.py) -/
@@ -256,29 +261,40 @@ def escapeOf (f : Form) : Text → Text :=
   | .html => htmlEscape
   | _ => noEscape
 
+/-- `escape(value)` for a value that may be a markup object: `webob.html_escape` returns `value.__html__()` VERBATIM
+when the value has `__html__`; `_no_escape` returns a `str` (subclass) value as it is -/
+def escVal (f : Form) (text : Text) (html : Option Text) : Text :=
+  match f, html with
+  | .html, some h => h
+  | _, _ => escapeOf f text
+
 def brOf (f : Form) : Text :=
   match f with
   | .html => ['<', 'b', 'r', '/', '>']
   | _ => ['\n']
 
 /-- `html_comment`: `'<!-- %s -->' % escape(comment)` in the HTML branch, `escape(comment)` otherwise, `''` when
-there is no comment -/
-def htmlCommentOf (f : Form) (comment : Text) : Text :=
+there is no comment (`if comment:` — the truth value of a `str` subclass is that of its text) -/
+def htmlCommentOf (f : Form) (comment : Text) (html : Option Text := none) : Text :=
   if comment.isEmpty then []
   else match f with
-    | .html => ['<', '!', '-', '-', ' '] ++ htmlEscape comment ++ [' ', '-', '-', '>']
+    | .html => ['<', '!', '-', '-', ' '] ++ escVal .html comment html ++ [' ', '-', '-', '>']
     | _ => noEscape comment
+
+/-- `x or ''` on a markup object: an empty one is falsy, so the plain `''` takes its place -/
+def orHtml (text : Text) (html : Option Text) : Option Text := if text.isEmpty then none else html
 
 /-- the `args` dict as a list of assignments in execution order -/
 def buildArgs (f : Form) (e : Exc) (environ : List (Text × Text)) : List (Text × Text) :=
   let esc := escapeOf f
   let comment := orEmpty e.comment
+  let commentHtml := orHtml comment e.commentHtml
   let base : List (Text × Text) :=
     [(['b', 'r'], brOf f),
-     (['e', 'x', 'p', 'l', 'a', 'n', 'a', 't', 'i', 'o', 'n'], esc e.explanation),
-     (['d', 'e', 't', 'a', 'i', 'l'], esc (orEmpty e.detail)),
-     (['c', 'o', 'm', 'm', 'e', 'n', 't'], esc comment),
-     (['h', 't', 'm', 'l', '_', 'c', 'o', 'm', 'm', 'e', 'n', 't'], htmlCommentOf f comment)]
+     (['e', 'x', 'p', 'l', 'a', 'n', 'a', 't', 'i', 'o', 'n'], escVal f e.explanation e.explanationHtml),
+     (['d', 'e', 't', 'a', 'i', 'l'], escVal f (orEmpty e.detail) (orHtml (orEmpty e.detail) e.detailHtml)),
+     (['c', 'o', 'm', 'm', 'e', 'n', 't'], escVal f comment commentHtml),
+     (['h', 't', 'm', 'l', '_', 'c', 'o', 'm', 'm', 'e', 'n', 't'], htmlCommentOf f comment commentHtml)]
   if e.custom then
     base ++ (environ.filter (fun kv => !envKeySkipped kv.1)).map (fun kv => (kv.1, esc kv.2))
          ++ e.headers.map (fun kv => (kv.1.map asciiLower, esc kv.2))
